@@ -65,7 +65,7 @@ def model(prog):
     kind = "ok"
     ties = False
     leftovers = []   # absolute times of plain delayed calls left behind
-    cleanups = list(prog.get("cleanups", []))
+    stack = [("cleanup%d" % i, b) for i, b in enumerate(prog.get("cleanups", []))]
 
     def limit():
         return min(T, tau if tau is not None else float("inf"))
@@ -90,6 +90,10 @@ def model(prog):
             now = limit()
             return False
         now = end
+        if "late_cleanup" in b.get("do", []):
+            # a cleanup registered when this stage completes (in the callback of the Deferred it returned):
+            # it is the most recently registered one, so it runs first
+            stack.append(("late-" + name, {"end": "ret"}))
         if b["end"] == "skip":
             skipped = True
             return "stagefail"
@@ -104,8 +108,9 @@ def model(prog):
         if r is not False:
             r = do("tearDown", prog["tearDown"])
     if r is not False:
-        for i in range(len(cleanups) - 1, -1, -1):
-            r = do("cleanup%d" % i, cleanups[i])
+        while stack:
+            cname, cb = stack.pop()
+            r = do(cname, cb)
             if r is False:
                 break
     if tau is not None and kind == "ok" and tau > now:
@@ -167,7 +172,14 @@ def build_case(prog, reactor, stagelog):
                 def rearm():
                     reactor.callLater(5.0, lambda: None)
                 reactor.callLater(0, rearm)
+        late = "late_cleanup" in b.get("do", [])
+
+        def register_late(r=None):
+            case.addCleanup(behave, case, "late-" + name, {"end": "ret"})
+            return r
         k = b["end"]
+        if late and k not in ("fire_at", "fail_at", "never"):
+            register_late()
         if k == "ret":
             return None
         if k == "raise":
@@ -182,6 +194,8 @@ def build_case(prog, reactor, stagelog):
             return defer.fail(ValueError("E@" + name))
         d = defer.Deferred()
         d.addBoth(lambda r: (stagelog.append(("fired", name, reactor.seconds())), r)[1])
+        if late:
+            d.addBoth(register_late)
         if k == "fire_at":
             reactor.callLater(b["arg"], d.callback, None)
         elif k == "fail_at":
@@ -311,7 +325,36 @@ def x_history(ctx, case):
     return nontrivial
 
 
+def late_cleanup_programs():
+    out = []
+    for runner in ("plain", "broken"):
+        for n_cleanups in (0, 2):
+            for slot in ("setUp", "test", "tearDown", "cleanup0", "cleanup1"):
+                if slot.startswith("cleanup") and n_cleanups == 0:
+                    continue
+                for end in ({"end": "ret"}, {"end": "fire_at", "arg": 0.5}, {"end": "fail_at", "arg": 0.5},
+                            {"end": "raise"}, {"end": "fired"}):
+                    p = {"setUp": dict(PLAIN), "test": dict(PLAIN), "tearDown": dict(PLAIN),
+                         "cleanups": [dict(PLAIN) for _ in range(n_cleanups)], "timeout": 2.0, "runner": runner}
+                    b = dict(end, do=["late_cleanup"])
+                    if slot.startswith("cleanup"):
+                        p["cleanups"][int(slot[7:])] = b
+                    else:
+                        p[slot] = b
+                    out.append(p)
+        # setUp fails after registering cleanups, one of which returns a Deferred that fires later
+        for which in (0, 1, 2):
+            for end in ({"end": "raise"}, {"end": "fail_at", "arg": 0.25}, {"end": "skip"}):
+                p = {"setUp": dict(end), "test": dict(PLAIN), "tearDown": dict(PLAIN),
+                     "cleanups": [dict(PLAIN), dict(PLAIN), dict(PLAIN)], "timeout": 2.0, "runner": runner}
+                p["cleanups"][which] = {"end": "fire_at", "arg": 0.5}
+                out.append(p)
+    return out
+
+
 def _stage_spec(prog, name):
+    if name.startswith("late-"):
+        return {"end": "ret"}
     if name.startswith("cleanup"):
         return prog["cleanups"][int(name[7:])]
     return prog[name]
@@ -479,6 +522,14 @@ def run(ctx):
                         ctx.execute("history", {"progs": [p]})
     ctx.note_space("slow synchronous work straddling timeout and firing instant / preceding an interrupt: 2 runners x "
                    "2 endings x 4 (delay, timeout) pairs x (3 x 4 stages + 4 interrupts)", n)
+    # cleanups registered late: when a stage completes, i.e. in the callback of the Deferred it returned
+    n = 0
+    for prog in late_cleanup_programs():
+        if ctx.mine():
+            n += 1
+            ctx.execute("history", {"progs": [prog]})
+    ctx.note_space("a cleanup registered when a stage completes: 5 stages x 5 endings x {0, 2} earlier cleanups x 2 "
+                   "runners, plus setUp failing before a Deferred-returning cleanup", n)
     # two-test histories and random programs
     ctx.notes["random_cases"] = True
 
@@ -489,6 +540,10 @@ def run(ctx):
             p[s] = dict(rng.choice(ENDS)) if rng.random() < 0.35 else dict(PLAIN)
         p["cleanups"] = [dict(rng.choice(ENDS)) if rng.random() < 0.35 else dict(PLAIN)
                          for _ in range(rng.randint(0, 3))]
+        if rng.random() < 0.25:
+            slot = rng.choice(STAGES + ["cleanups"])
+            tgt = p[slot] if slot != "cleanups" else (rng.choice(p["cleanups"]) if p["cleanups"] else p["test"])
+            tgt["do"] = list(tgt.get("do", [])) + ["late_cleanup"]
         if rng.random() < 0.25:
             p["stop_at"] = rng.choice([0.1, 0.3, 0.6, 0.9, 1.1, 1.7, 2.3, 5.0])
         elif rng.random() < 0.3:
